@@ -120,7 +120,9 @@ class Register:
                 if stop > alias_from.size:
                     raise JaqalError("Index out of range.")
                 indices = range(start, stop, step)
-                if len(indices) > 0 and (
+                # (truth value, not len(): the length of a huge range does
+                # not fit a machine integer)
+                if indices and (
                     min(indices[0], indices[-1]) < 0
                     or max(indices[0], indices[-1]) >= alias_from.size
                 ):
@@ -238,7 +240,10 @@ class Register:
 
         if step == 0:
             raise JaqalError("Slice step cannot be zero.")
-        return len(range(start, stop, step))
+        try:
+            return len(range(start, stop, step))
+        except OverflowError as exc:
+            raise JaqalError("Slice bounds are out of range.") from exc
 
     def resolve_qubit(self, idx, context=None):
         """
